@@ -4,6 +4,7 @@ CONSTANTS
   LeaveFix = TRUE
   MaxResets = 1
   Faults = TRUE
+  StaleAcks = FALSE
   MaxProcs = 0
 PROPERTY Answered
 PROPERTY FaultLeadsToFailure
